@@ -346,7 +346,7 @@ StepOp(x, t) ==
                              !.nextBit = IF x.free # << >> THEN @ ELSE @ + 1,
                              !.handlers = @ \cup {bit}, !.wbit = @ @@ (w :> bit), !.hid = @ @@ (w :> bit)]
          IN NextOp(Emit(x1, t, [e |-> "wcreate", w |-> w]), t)
-    [] op[1] = "poll" ->
+    [] op[1] \in {"poll", "trypoll"} ->      \* trypoll: the event loop looks without waiting (other threads may be mid-way)
          LET was == x.notified
              x1 == Emit([x EXCEPT !.notified = FALSE], t, [e |-> "pollcheck", notified |-> was])
          IN IF was THEN [Emit(x1, t, [e |-> "poll_begin"]) EXCEPT !.th[t].pc = "swap_top", !.th[t].drain = FALSE]
